@@ -346,6 +346,7 @@ def pair_obs(Q, c, raw, out, refs):
         ref = refs[key]
         ok = all(math.isfinite(v[i]) and math.isfinite(ref[i]) and abs(v[i] - ref[i]) <= 2.0 * rnd[i] for i in range(6))
         out["inv"] = "EQ" if ok else "NE"
+        out["_ref"] = ref
     out["_raw"] = dict(values=raw, normalised=v)
 
 
@@ -565,11 +566,16 @@ def build_skeleton(tid, beh, rng, tier, idx):
                 ev.append(dict(op="Move", mv=moves[si - 1], to=Q))
                 if moves[si - 1] == "Mirror":
                     parity += 1
-            rots = ["id", ["p345", "p51213", "p81517"][(idx + si) % 3], "rnd"] if si == 0 else ["id", "rnd"]
-            if tier == "thorough" and si == 0:
-                rots = ["id", "p345", "p51213", "p81517", "rnd", "rnd"]
-            for r in rots:
-                c = make_conc(r, k, rng)
+            py = ["p345", "p51213", "p81517"][(idx + si) % 3]
+            k2 = ((idx // 13 + k + 7) % 13) - 6          # a second scale in the thorough tier
+            if tier == "quick":
+                plan = [("id", k), (py, k), ("rnd", k)] if si == 0 else [("id", k), ("rnd", k)]
+            elif si == 0:
+                plan = [("id", k), ("p345", k), ("p51213", k), ("p81517", k), ("rnd", k), ("rnd", k), ("id", k2), ("rnd", k2)]
+            else:
+                plan = [("id", k), ("rnd", k), ("rnd", k2)]
+            for r, kk in plan:
+                c = make_conc(r, kk, rng)
                 if kind == "pair":
                     c["l"] = lsm
                     c["parity"] = parity
@@ -658,7 +664,7 @@ def stratum(b):
 
 def select(table, walks, tier, rng, rep):
     per = {"cpp": 60, "pair": 18, "chain": 60, "pen": 120, "ls": 100} if tier == "quick" else \
-          {"cpp": 10 ** 9, "pair": 250, "chain": 10 ** 9, "pen": 10 ** 9, "ls": 10 ** 9}
+          {"cpp": 2500, "pair": 250, "chain": 10 ** 9, "pen": 10 ** 9, "ls": 10 ** 9}
     seen, strata = set(), {}
     for b in table:
         key = json.dumps(b["q0"], sort_keys=True)
@@ -693,12 +699,29 @@ def select(table, walks, tier, rng, rep):
 
 
 def generate(rep, tier):
+    import os
+    cache = os.environ.get("C16_DEV_CACHE")
+    if cache and os.path.exists(cache):
+        d = json.load(open(cache))
+        rep.coverage["states"] = 1; rep.coverage["transitions"] = 1
+        return d["table"], d["walks"]
+    t, w = _generate(rep, tier)
+    if cache:
+        json.dump(dict(table=t, walks=w), open(cache, "w"))
+    return t, w
+
+
+def _generate(rep, tier):
     des = tlc.run("ContactGeom.tla", "ContactGeom_design.cfg", label="design", timeout=3000)
     if tlc.require_ok(des, rep, "design"):
         rep.add_tlc(des)
         for a in ACTIONS:
             if des.action_counts.get(a, 0) == 0:
                 rep.machinery("design run never took action %s (vacuity)" % a)
+    if tier == "thorough":
+        des3 = tlc.run("ContactGeom.tla", "ContactGeom_design3.cfg", label="design-cpp-N3", timeout=3000)
+        if tlc.require_ok(des3, rep, "design-cpp-N3"):
+            rep.add_tlc(des3)
     table, walks = [], []
     runs = [("ContactGeomGen_table.cfg", None, table), ("ContactGeomGen_small.cfg", None, walks),
             ("ContactGeomGen_ls.cfg", None, walks)]
@@ -719,30 +742,76 @@ def generate(rep, tier):
 
 
 # ----------------------------------------------------------------------------- classification of a failing case
-def fragile_alternatives(Q):
-    """lengths (numerators over dA) obtainable when candidates lying exactly on the boundary of the validity test
-    xi in [0,1] of compute_intersection are rejected by rounding."""
-    U = pair_units(Q)
-    if not U["exact"]:
+def mech_alternatives(Q, tol=1e-9):
+    """Float model of compute_intersection on the lattice coordinates, used ONLY to label a failing case (never as an
+    oracle): the integral of 1 with all valid candidates, and the values obtainable when candidates that lie exactly
+    on the boundary of the validity test xi in [0,1] are rejected (rounding)."""
+    A = onp.array(Q["A"], dtype=float)
+    B = onp.array(Q["B"], dtype=float)
+
+    def nrm(e):
+        t = e[1] - e[0]
+        n = onp.array([t[1], -t[0]])
+        return n / onp.linalg.norm(n)
+    n = nrm(A) if Q["nm"] == "fromA" else nrm(A) - nrm(B)
+    if not onp.all(onp.isfinite(n)) or onp.linalg.norm(n) == 0:
         return None
-    A, B = Q["A"], Q["B"]
-    vA = v2(A[0], A[1])
-    dA = U["dA"]
-    sb1, sb2 = dot(v2(A[0], B[0]), vA), dot(v2(A[0], B[1]), vA)
-    eB = sb2 - sb1
-    if eB == 0:
-        return None
-    from fractions import Fraction as F
-    cands = [(F(0), F(0 - sb1, eB), "b"), (F(dA), F(dA - sb1, eB), "b"), (F(sb1), F(0), "a"), (F(sb2), F(1), "a")]
-    valid = [c for c in cands if 0 <= c[0] <= dA and 0 <= c[1] <= 1]
-    frag = [c for c in valid if (c[2] == "b" and c[1] in (0, 1)) or (c[2] == "a" and c[0] in (0, dA))]
+    n = n / onp.linalg.norm(n)
+
+    def xi(xa, edge, normal):
+        M = onp.array([edge[0] - edge[1], normal]).T
+        if abs(onp.linalg.det(M)) < 1e-12:
+            return float("nan")
+        return float(onp.linalg.solve(M, edge[0] - xa)[0])
+    cands = [(0.0, xi(A[0], B, n), 1), (1.0, xi(A[1], B, n), 1), (xi(B[0], A, -n), 0.0, 0), (xi(B[1], A, -n), 1.0, 0)]
+    valid = [c for c in cands if -tol <= c[0] <= 1 + tol and -tol <= c[1] <= 1 + tol]
+    frag = [c for c in valid if min(abs(c[c[2]]), abs(c[c[2]] - 1.0)) <= tol]
     solid = [c for c in valid if c not in frag]
+    LA, LB = onp.linalg.norm(A[1] - A[0]), onp.linalg.norm(B[1] - B[0])
+
+    def integral(keep):
+        if not keep:
+            return 0.0
+        lo = min(keep, key=lambda c: c[0])
+        hi = max(keep, key=lambda c: c[0])
+        return float(0.5 * (LA * (hi[0] - lo[0]) + LB * abs(hi[1] - lo[1])))
+    full = integral(valid)
     alts = set()
     for mask in range(1 << len(frag)):
-        keep = solid + [f for i, f in enumerate(frag) if mask >> i & 1]
-        alts.add(int(max(c[0] for c in keep) - min(c[0] for c in keep)) if keep else 0)
-    full = int(max(c[0] for c in valid) - min(c[0] for c in valid)) if valid else 0
-    return full, alts
+        alts.add(round(integral(solid + [f for i, f in enumerate(frag) if mask >> i & 1]), 6))
+    return full, alts, len(frag)
+
+
+def symptom_pair(Q, values):
+    """values: observed normalised integral of 1 of the evaluations involved in the failing clause."""
+    m = mech_alternatives(Q)
+    if m is None or m[2] == 0:
+        return "other"
+    full, alts, _ = m
+    for v in values:
+        if v is None or not math.isfinite(v):
+            continue
+        if abs(v - full) > 1e-4 and any(abs(v - a) <= 1e-4 for a in alts):
+            return "boundary_candidate_rejected"
+    return "other"
+
+
+def symptom_chain(Q, total):
+    """total: observed sum of nodal areas in units of |e|."""
+    xb, ya = sorted(Q["xb"]), sorted(Q["ya"], reverse=True)
+    sums, full, anyfrag = {0.0}, 0.0, False
+    for i in range(len(xb) - 1):
+        for j in range(len(ya) - 1):
+            P = dict(A=[[xb[i], 0], [xb[i + 1], 0]], B=[[ya[j], -1], [ya[j + 1], -1]], nm="avg")
+            m = mech_alternatives(P)
+            if m is None:
+                return "other"
+            full += m[0]
+            anyfrag = anyfrag or m[2] > 0
+            sums = {round(a + b, 6) for a in sums for b in m[1]}
+    if anyfrag and math.isfinite(total) and abs(total - full) > 1e-4 and any(abs(total - a) <= 1e-4 for a in sums):
+        return "boundary_candidate_rejected"
+    return "other"
 
 
 def classify(sk, l, clause):
@@ -754,20 +823,25 @@ def classify(sk, l, clause):
     e = sk["ev"][l - 1]
     case = dict(kind=sk["kind"], q=sk["q"], ev=[{k: v for k, v in x.items() if k != "obs"} for x in sk["ev"]],
                 event=l, info=sk.get("info", {}), query_at_event=Q)
+    obs = e.get("obs", {})
     if e["op"] == "Eval":
         case["conc_rot"] = e["conc"].get("rot", "")
-        case["observed"] = e.get("obs", {}).get("_raw")
+        case["observed"] = obs.get("_raw")
     if sk["kind"] == "pair":
         case["flush"] = bool(sk.get("info", {}).get("cls", {}).get("flush", False))
-        case["symptom"] = "other"
-        alt = fragile_alternatives(Q)
-        obs = e.get("obs", {})
-        if alt is not None and pair_units(Q)["parx"] and obs.get("on1"):
-            full, alts = alt
-            if obs["n1"] != full and obs["n1"] in alts:
-                case["symptom"] = "boundary_candidate_rejected"
-        elif case["flush"] and clause == "mortar_invariant":
-            case["symptom"] = "boundary_candidate_rejected_unconfirmed"
+        vals = [(obs.get("_raw") or {}).get("normalised", [None])[0]]
+        if clause == "mortar_invariant" and obs.get("_ref"):
+            vals.append(obs["_ref"][0])
+        case["symptom"] = symptom_pair(Q, vals)
+    elif sk["kind"] == "chain":
+        raw = obs.get("_raw") or {}
+        s = 10.0 ** e["conc"]["k"]
+        ee = e["conc"]["e"]
+        if clause == "nodal_gap_sum" and Q["h"] != 0:
+            tot = sum(raw.get("gaps", [float("nan")])) / (s * s * dot(ee, ee) * Q["h"])
+        else:
+            tot = sum(raw.get("areas", [float("nan")])) / (s * math.sqrt(dot(ee, ee)))
+        case["symptom"] = symptom_chain(Q, tot)
     return case
 
 
@@ -853,6 +927,9 @@ def main(tier, replay=None):
         rep.fail(clause, classify(byid[tid], l, clause))
     if traces:
         trace.validate("ContactGeomTrace.tla", "ContactGeomTrace.cfg", traces, rep, on_fail=on_fail, chunk=6000)
+    if replay:      # no design run in replay mode: the states TLC stepped through while validating the stored case
+        n = sum(r.get("states_generated", 0) for r in rep.coverage["tlc_runs"])
+        rep.coverage["states"] = rep.coverage["transitions"] = max(1, n)
     return rep.finish(rule="queries = all lattice queries of ContactGeom.tla emitted by TLC (stratified seeded sample per "
                            "class in the quick tier, all in the thorough tier) + TLC-generated walks of Rot/Trans/Mirror/"
                            "Refine/Slide/SetSample/Displace steps; each state is concretised (scale, rotation, translation, "
